@@ -61,11 +61,29 @@ class _DetRNG(_ORIG_RNG):  # type: ignore[misc,valid-type]
             super().set_seeds(*args)
 
 
+class _Clock:
+    """The server module's time(): stands still unless a history advances it (the 10 s inactivity reset of
+    UDSServerTransport.handle_request reads it)."""
+
+    def __init__(self) -> None:
+        self.t = 1000.0
+
+    def now(self) -> float:
+        return self.t
+
+    def advance(self, dt: float) -> None:
+        self.t += dt
+
+
+CLOCK = _Clock()
+
+
 def patch_env(seed: int) -> None:
     _DetRNG.base = seed
     _DetRNG.counter = 0
     srv.RNG = _DetRNG  # type: ignore[misc]
-    srv.time = lambda: 1000.0  # type: ignore[assignment]
+    CLOCK.t = 1000.0
+    srv.time = CLOCK.now  # type: ignore[assignment]
     # handle_client prints the traceback of whatever ended a connection; keep stderr for verdicts
     srv.traceback = types.SimpleNamespace(print_exc=lambda *a, **k: None)  # type: ignore[assignment]
 
